@@ -259,4 +259,18 @@ CHECKS = {
         "level_note": "Byte-level native fuzzing of the JSON / PEM / bech32 parsers is not part of the quick tier.",
         "design_ref": "DESIGN.md §5 C20",
     },
+    "C01": {
+        "title": "Supply changes only by scheduled mint minus configured burn",
+        "level": "exploration",
+        "technique": "stateful property-based testing (rapid state machine) of the integrated application: whole-app BeginBlock/EndBlock interleaved with custom-module messages; invariant oracle (supply == sum of balances), schedule reference model for the minted side, distributor reference model for the burned side, bank coinbase/burn event attribution",
+        "tests": [T("TestC01", 250, 1200, qshards=3, steps=40)],
+        "rule": "cases = generated minter configuration x generated sub-distributor configuration (integrated-safe) x generated vesting types, then a rapid state machine (avg 40 steps) over: a block (app.BeginBlocker + app.EndBlocker of the whole module manager) after dt in {1ns..1y}x{1..3}; inflows by plain transfers into base sources and the fee collector; custom-module messages with baseapp semantics - create pool, pool send, withdraw, direct creation, split, move (from accounts created earlier), cfesignature publish / store / create-account - valid and invalid. "
+                "After every block: sum of all balances == total supply per denomination (full IterateAllBalances); supply delta == sum of bank coinbase events - sum of burn events; coinbase events name only the cfeminter module account, burn events only distributor_main_account; cumulative minted lies within the reference schedule's bounds and equals the Mint event; burned equals what the reference flow model (re-synchronised with the balances the distributor sees) assigns to the burn shares. After every message: supply unchanged, balances changed only for the signer, the vesting module account and the message's recipient, nothing changed if rejected, sum == supply. "
+                "Non-trivial = at least one block minted, one block burned and one message was accepted. Distinct = SHA-256 of the history.",
+        "min_nontrivial_fraction": 0.08,
+        "min_class_fraction": {"block_minted": 0.4, "block_burned": 0.15, "message_accepted": 0.5, "message_rejected": 0.5},
+        "level_text": "The identity is checked over generated interleavings of mint, distribution, burn and vesting/signature traffic on the real application with all modules' begin/end blockers running.",
+        "level_note": "No parameter updates inside a history (the property quantifies over configurations, not over updates; C10/C13 cover updates). Bounds as C02/C03.",
+        "design_ref": "DESIGN.md §5 C01",
+    },
 }
